@@ -3,9 +3,9 @@ import vlib, ptcp_common as pc
 
 COQ_TARGETS = ["Props/Properties_C09.vo"] + pc.COQ_TARGETS_COMMON
 META = dict(
-    text='proof (partial): Coq theorems: while the socket is not CLOSED and no legacy shutdown is pending, get_next_clock returns a deadline at most 4000 ms after now (1 ms in TIME-WAIT) and leaves the state untouched, for every state and every timeout argument (no 32-bit wrap of now+4000 assumed in the statement). The error-or-success dichotomy, the armed-timer invariant and the completion bound after healing are NOT proved; the correspondence runs (lossy/duplicating/reordering schedules, zero windows, clock values on both sides of the 2^32 wrap, Nagle, ack delays, buffers 1 KiB..1 MiB, MTU steps) act as counterexample search with a deadline oracle.',
+    text='proof (partial): Coq theorems over the bit-exact model for ALL operation sequences: TIMER-ARMED invariant — in every reachable state with unacknowledged segments in flight the retransmission timer is armed, get_next_clock names it and notify_clock at that instant retransmits or closes with an error; a closed peer window is probed or the connection aborted after 15 s; a pending delayed ACK is flushed; NEVER HANGS SILENTLY — from any reachable state that is not closed and has something outstanding, if no packet arrives and the owner follows the clock interface, the socket is CLOSED with an error event after at most 9216 rounds (explicit decreasing measure, no-wrap hypothesis on the 32-bit clock stated); back-off shape min(cap, rto*2^k) with cap 60 s established / 1 s connecting; a reader that drains a closed window by at least min(rbuf/2, mss) makes the socket send a window update (withheld when Nagle holds back a pending segment: refuted witness, DESIGN 9.6). Completion after the network heals is NOT a theorem. Earlier: while the socket is not CLOSED and no legacy shutdown is pending, get_next_clock returns a deadline at most 4000 ms after now (1 ms in TIME-WAIT) and leaves the state untouched, for every state and every timeout argument (no 32-bit wrap of now+4000 assumed in the statement). The error-or-success dichotomy, the armed-timer invariant and the completion bound after healing are NOT proved; the correspondence runs (lossy/duplicating/reordering schedules, zero windows, clock values on both sides of the 2^32 wrap, Nagle, ack delays, buffers 1 KiB..1 MiB, MTU steps) act as counterexample search with a deadline oracle.',
     note='trusted: as C08. Partial: liveness clauses are exploration only. Near the 32-bit clock wrap get_next_clock returns the wrapped 32-bit instant (documented in DESIGN.md as an observation).',
-    technique='Coq proof of the deadline clause over executable model (partial) + differential correspondence')
+    technique='Coq proofs of the timer-armed invariant and of silence-implies-error-closure (decreasing measure) over the executable model for all operation sequences (partial) + differential correspondence + healing scenarios with a completion oracle')
 
 FINISH = dict(level="proof", trusted=pc.TRUSTED, rule='as C08 plus zero-window and MTU-step programs; get_next_clock queried with timeouts 0, past, near, far',
               assumptions=["clock never reports 0 (reserved by the implementation for 'use the real clock')", "MTU advice >= 296"])
